@@ -4,7 +4,8 @@ Tie, continued (see Props/Tie/DifflibGen.lean): statements for ALL inputs relati
 
   5. GetGroupedOpCodes relative to getOpCodes (`GetGroupedOpCodes_agrees`)
   6. chainB / NewMatcher: the `b2j` map agrees with `Difflib.b2j` for every element (`NewMatcher_b2j_agrees`)
-  7. findLongestMatch: the inner loop (`inner_sim`) and the outer loop (`outer_sim`) agree with the hand port's `inner` / `outer`
+  7. findLongestMatch: the inner loop (`inner_sim`) and the outer loop (`outer_sim`) agree with the hand port's `inner` / `outer`;
+     the two extension loops agree with `extBack` / `extFwd` within their iteration bounds (`back_sim`, `fwd_sim`)
 -/
 import GoSnaps.Props.Tie.DifflibGen
 import GoSnaps.Lemmas.Difflib
@@ -644,5 +645,66 @@ theorem outer_sim (a b : List (List UInt8)) (alo ahi blo bhi : Nat) (hahi : ahi 
     have ec : ((i : Int) + 1) = ((i + 1 : Nat) : Int) := by omega
     rw [ec]
     exact ih (i + 1) _ _ nwI' (by omega) (by omega) (by omega) (fun _ => by simpa using h.1) h.2 hR'
+
+abbrev BSt := Int × Int × Int × Bool
+
+/-- **the first extension loop agrees with the hand port's `extBack`** and leaves through its condition
+    (flag `true`) within `besti - alo + 1` iterations, for an arbitrary body that behaves like the Go one
+    on states inside the sequences -/
+theorem back_sim (a b : List (List UInt8)) (alo blo : Nat) (F : Unit → BSt → Option (ForInStep BSt))
+    (hF : ∀ (i j k : Nat), i ≤ a.length → j ≤ b.length → F () ((i : Int), (j : Int), (k : Int), false) =
+      some (if alo < i ∧ blo < j ∧ Difflib.eqAt a b (i - 1) (j - 1) = true
+        then ForInStep.yield (((i - 1 : Nat) : Int), ((j - 1 : Nat) : Int), ((k + 1 : Nat) : Int), false)
+        else ForInStep.done ((i : Int), (j : Int), (k : Int), true))) :
+    ∀ (fuel i j k : Nat), i ≤ a.length → j ≤ b.length → i - alo < fuel →
+      forIn (m := Option) (GoDiff.fuelList fuel) ((i : Int), (j : Int), (k : Int), false) F =
+        some (((Difflib.extBack a b alo blo i j k).i : Int), ((Difflib.extBack a b alo blo i j k).j : Int),
+          ((Difflib.extBack a b alo blo i j k).k : Int), true) := by
+  intro fuel
+  induction fuel with
+  | zero => intro i j k _ _ h; omega
+  | succ fuel ih =>
+    intro i j k hi hj hf
+    rw [GoDiff.fuelList, List.replicate_succ, List.forIn_cons, hF i j k hi hj]
+    cases i with
+    | zero => simp [Difflib.extBack]
+    | succ i =>
+      rw [Difflib.extBack]
+      by_cases hc : alo < i + 1 ∧ blo < j ∧ Difflib.eqAt a b i (j - 1) = true
+      · have hc' : alo < i + 1 ∧ blo < j ∧ Difflib.eqAt a b (i + 1 - 1) (j - 1) = true := by simpa using hc
+        rw [if_pos hc', if_pos hc]
+        simp only [Option.bind_eq_bind, Option.bind_some]
+        have := ih i (j - 1) (k + 1) (by omega) (by omega) (by omega)
+        simpa [GoDiff.fuelList] using this
+      · have hc' : ¬ (alo < i + 1 ∧ blo < j ∧ Difflib.eqAt a b (i + 1 - 1) (j - 1) = true) := by simpa using hc
+        rw [if_neg hc', if_neg hc]
+        rfl
+
+/-- **the second extension loop agrees with the hand port's `extFwd`** -/
+theorem fwd_sim (a b : List (List UInt8)) (ahi bhi i j : Nat) (F : Unit → Int × Bool → Option (ForInStep (Int × Bool)))
+    (hF : ∀ (k : Nat), F () ((k : Int), false) =
+      some (if i + k < ahi ∧ j + k < bhi ∧ Difflib.eqAt a b (i + k) (j + k) = true
+        then ForInStep.yield (((k + 1 : Nat) : Int), false) else ForInStep.done ((k : Int), true))) :
+    ∀ (fuel k : Nat), ahi - (i + k) < fuel →
+      forIn (m := Option) (GoDiff.fuelList fuel) ((k : Int), false) F =
+        some (((Difflib.extFwd a b ahi bhi i j k : Nat) : Int), true) := by
+  intro fuel
+  induction fuel with
+  | zero => intro k h; omega
+  | succ fuel ih =>
+    intro k hf
+    rw [GoDiff.fuelList, List.replicate_succ, List.forIn_cons, hF k, Difflib.extFwd]
+    by_cases hc : i + k < ahi ∧ j + k < bhi ∧ Difflib.eqAt a b (i + k) (j + k) = true
+    · rw [if_pos hc, if_pos hc]
+      simp only [Option.bind_eq_bind, Option.bind_some]
+      have := ih (k + 1) (by omega)
+      simpa [GoDiff.fuelList] using this
+    · rw [if_neg hc, if_neg hc]
+      rfl
+
+/-- a bounded loop whose first iteration leaves -/
+theorem forIn_fuel_done {σ : Type} (n : Nat) (s s' : σ) (F : Unit → σ → Option (ForInStep σ))
+    (h : F () s = some (ForInStep.done s')) : forIn (m := Option) (GoDiff.fuelList (n + 1)) s F = some s' := by
+  rw [GoDiff.fuelList, List.replicate_succ, List.forIn_cons, h]; rfl
 
 end GoSnaps.Tie.DifflibGen
